@@ -259,6 +259,8 @@ class Builtins:
             return [Res(st, VModule(m + "." + name))]
         if m in self.X.P.modules:
             return [Res(st, self.X.lookup_global(st, name, m))]
+        if m == "numpy" and name in ("inf", "nan"):
+            return [Res(st, VFl(Fl.const(float(name))))]
         return [Res(st, VBuiltin(f"{m}.{name}"))]
 
     def value_getattr(self, st, v, name):
@@ -280,6 +282,8 @@ class Builtins:
         if v.name == "child.quantity" and name == "name":
             vw = st.view(v.self_v.ref)
             return [Res(st, vite(core.has_qname(vw), VStr(core.qname(vw)), NONE))]
+        if v.name == "np.finfo.obj" and name == "eps":
+            return [Res(st, VFl(Fl.const(2.0**-52), "npfloat"))]
         return [Res(st, VBuiltin(v.name + "." + name, v.self_v))]
 
     def func_getattr(self, st, v, name):
@@ -550,6 +554,14 @@ class Builtins:
                 kt = self.keyterm(item)
                 st.add_index(kt)
                 return [Res(st, VBool(o.present(kt)))]
+            if isinstance(o, LList) and self.num(item) is not None and o.getter is not None:
+                # x in list-of-numbers: some element compares == to x
+                fx = self.num(item)
+                i = z3.Int(f"mem!{core.uid()}")
+                fe = self.num(o.get(i))
+                if fe is not None:
+                    none = st.forall(i, z3.And(i >= 0, i < o.length()), z3.Not(fx.eq(fe)), equiv=True, name="list-membership")
+                    return [Res(st, VBool(z3.Not(none)))]
             if isinstance(o, CSet):
                 pk = self.try_pykey(item)
                 if pk is not None:
@@ -578,6 +590,14 @@ class Builtins:
                 return [Res(st, VBool(z3.And(JM.jtag(item.t) == JM.STR, z3.Or([JM.jstr(item.t) == core.strlit(p) for p in PRIMITIVES]))))]
         if isinstance(cont, VIter) and cont.what == "keys":
             return self.contains(st, cont.parts[0], item)
+        if isinstance(cont, VIter) and cont.what == "range" and all(isinstance(p_, VInt) for p_ in cont.parts):
+            lo_, hi_ = cont.parts[0].t, cont.parts[1].t
+            if isinstance(item, VInt):
+                return [Res(st, VBool(z3.And(lo_ <= item.t, item.t < hi_)))]
+            f_ = self.num(item)
+            if f_ is not None:
+                return [Res(st, VBool(z3.And(f_.isfin(), f_.r == z3.ToReal(z3.ToInt(f_.r)), z3.ToReal(lo_) <= f_.r, f_.r < z3.ToReal(hi_))))]
+            return [Res(st, VBool(False))]
         if isinstance(cont, VJson):
             from . import jsonmodel
 
@@ -867,6 +887,10 @@ class Builtins:
         X = self.X
         if isinstance(a, VStr):
             return [Res(st, VStr(st.fresh("strslice", core.StrS)))]
+        from . import npmodel
+
+        if npmodel.is_arr(st, a):
+            return npmodel.getslice(X, st, a, lo, hi)
         so = self.seqobj(st, a)
         if so is None:
             if isinstance(a, (VFl, VInt, VNone, VBool)):
@@ -1002,6 +1026,8 @@ class Builtins:
             o = st.obj(v)
             if isinstance(o, (CList, LList, LDict)):
                 return o.length()
+            if type(o).__name__ == "ArrO":
+                return o.length
             if isinstance(o, CDict):
                 return z3.IntVal(len(o.items))
             if isinstance(o, CSet):
@@ -1323,7 +1349,51 @@ class Builtins:
                 ci = args[1].t < args[0].t if is_min else args[1].t > args[0].t
                 return [Res(st, VInt(z3.If(ci, args[1].t, args[0].t)))]
             return [Res(st, VFl(Fl.ite(c, b, a)))]
+        if len(args) == 1 and isinstance(args[0], VIter) and args[0].what == "keys" and isinstance(args[0].parts[0], VObj):
+            d = st.obj(args[0].parts[0])
+            if isinstance(d, LDict) and d.keykind == "int":
+                # assumed contract of min / max over the integer keys of a dict: ValueError when empty, else a
+                # present key that bounds every present key
+                out = []
+                for s, empty in self.X.branch(st, d.length() == 0):
+                    if empty:
+                        out.extend(self.X.raise_(s, "ValueError", "min/max of an empty sequence"))
+                        continue
+                    r = s.fresh("dictmin" if is_min else "dictmax", z3.IntSort())
+                    s.add(d.present(core.KInt(r)))
+                    s.add_index(core.KInt(r))
+                    k = z3.Const(f"mm!{core.uid()}", core.Key)
+                    s.forall(k, d.present(k), (r <= core.Key.ki(k)) if is_min else (core.Key.ki(k) <= r), name="minmax-bound")
+                    out.append(Res(s, VInt(r)))
+                return out
         raise Unsupported("min/max form")
+
+    def bi_bisect_bisect(self, st, fv, args, kw):
+        """assumed contract of bisect.bisect (= bisect_right) on a list sorted with respect to <: the
+        insertion point r, with not (x < a[i]) for every i < r and x < a[i] for every i >= r"""
+        so = self.seqobj(st, args[0])
+        fx = self.num(args[1])
+        if so is None or fx is None or len(args) != 2:
+            raise Unsupported("bisect.bisect form")
+        n = so.length()
+        get = so.get if isinstance(so, LList) else (lambda i, so=so: self.clist_get(so, i))
+
+        def el(i):
+            f = self.num(get(i))
+            if f is None:
+                raise Unsupported("bisect over non-numeric elements")
+            return f
+
+        r = st.fresh("bisect", z3.IntSort())
+        st.add(r >= 0, r <= n)
+        st.add_index(r)
+        i = z3.Int(f"bis!{core.uid()}")
+        st.forall(i, z3.And(i >= 0, i < r), z3.Not(fx.lt(el(i))), name="bisect-left-part")
+        i2 = z3.Int(f"bis!{core.uid()}")
+        st.forall(i2, z3.And(i2 >= r, i2 < n), fx.lt(el(i2)), name="bisect-right-part")
+        return [Res(st, VInt(r))]
+
+    bi_bisect_bisect_right = bi_bisect_bisect
 
     def bi_min(self, st, fv, args, kw):
         return self._minmax(st, args, True)
